@@ -7,7 +7,7 @@
 # evidence directory. Removes the scratch worktree afterwards.
 set -u
 seed="$(cd "$1" && pwd)"; demo="$2"; shift 2
-label="$(basename "$seed")"; name="seed${label##*-}"   # demos refer to themselves as seed1/ seed2/
+label="$(basename "$seed")"; name="${SEEDNAME:-seed${label##*-}}"   # demos refer to themselves as seed1/ seed2/
 wt="/tmp/seedcheck-$$"
 git -C /repo worktree add -q "$wt" HEAD || exit 2
 trap 'git -C /repo worktree remove --force "$wt" >/dev/null 2>&1; rm -rf "$wt" /tmp/seedcheck-ev-$$' EXIT
